@@ -33,6 +33,26 @@ pub fn slots(dbg: &str) -> (usize, usize) {
     (n, dbg.matches("None").count() + dbg.matches("NaN").count() + dbg.matches("inf").count())
 }
 
+/// input at step i of driver d: the cycles first, then aperiodic drivers (a strictly rising
+/// run, a strictly falling one, a sawtooth whose extremes move, quadratic residues), so that
+/// growth that only happens on monotone runs or when an extremum changes is exercised too
+fn drivers(spec: &Spec, max_period: usize) -> Vec<Box<dyn Fn(usize) -> f64 + Send + Sync>> {
+    let mut v: Vec<Box<dyn Fn(usize) -> f64 + Send + Sync>> = vec![];
+    for cyc in cycles(&alphabet(spec), max_period) {
+        v.push(Box::new(move |i| cyc[i % cyc.len()]));
+    }
+    let pos = needs_positive(spec);
+    v.push(Box::new(move |i| 1.0 + i as f64 * 0.5));
+    v.push(Box::new(move |i| if pos { 1e6 / (1.0 + i as f64) } else { -(i as f64) * 0.5 }));
+    v.push(Box::new(move |i| {
+        let k = (i / 7) as f64;
+        let saw = (i % 7) as f64;
+        if pos { 1.0 + k * 0.01 + saw } else { (k * 0.01 + saw) * if (i / 7) % 2 == 0 { 1.0 } else { -1.0 } }
+    }));
+    v.push(Box::new(move |i| if pos { 1.0 + ((i * i) % 11) as f64 } else { ((i * i) % 11) as f64 - 5.0 }));
+    v
+}
+
 fn alphabet(spec: &Spec) -> Vec<f64> {
     if needs_positive(spec) {
         vec![1.0, 2.0, 3.0]
@@ -52,8 +72,9 @@ fn shape_saturation<T: Scalar>(spec: &Spec, st: &mut Stats, sink: &Sink) {
     let total = warm + 3 * (w + 24);
     let alpha = alphabet(spec);
     st.configs += 1;
-    for cyc in cycles(&alpha, 3) {
-        let hist: Vec<f64> = (0..total).map(|i| cyc[i % cyc.len()]).collect();
+    let _ = &alpha;
+    for drv in drivers(spec, 3) {
+        let hist: Vec<f64> = (0..total).map(|i| drv(i)).collect();
         let r = guard(|| {
             let mut v = build::<T>(spec);
             // (max slots seen up to the warm-up horizon, empty options at the horizon)
@@ -102,19 +123,20 @@ fn shape_saturation<T: Scalar>(spec: &Spec, st: &mut Stats, sink: &Sink) {
 fn allocator<T: Scalar>(spec: &Spec, l: usize, st: &mut Stats, sink: &Sink) {
     let alpha = alphabet(spec);
     st.configs += 1;
-    for cyc in cycles(&alpha, 2) {
-        let p = cyc.len();
+    let _ = &alpha;
+    for drv in drivers(spec, 2) {
+        let cyc: Vec<f64> = (0..12).map(|i| drv(i)).collect();
         crate::spec::ADD_KEEPS_HISTORY.with(|c| c.set(false));
         let r = guard(|| {
             let before = alloc::live();
             let mut v = build::<T>(spec);
             for i in 0..l {
-                v.update(T::of(cyc[i % p]));
+                v.update(T::of(drv(i)));
             }
             let _ = v.last();
             let b1 = alloc::live() - before;
             for i in l..4 * l {
-                v.update(T::of(cyc[i % p]));
+                v.update(T::of(drv(i)));
             }
             let _ = v.last();
             let b2 = alloc::live() - before;
@@ -131,7 +153,7 @@ fn allocator<T: Scalar>(spec: &Spec, l: usize, st: &mut Stats, sink: &Sink) {
                 st.out(Some(b1 as f64));
                 let bound = 64 * (spec.total_n() as i64 + 8) * std::mem::size_of::<T>() as i64 * spec.depth() as i64;
                 if b2 > b1 {
-                    sink.push(Violation::new("C18", spec, "heap-grows", T::NAME, &cyc, format!("live heap bytes owned by the view: {} after {} updates, {} after {} updates (input: this cycle repeated)", b1, l, b2, 4 * l)));
+                    sink.push(Violation::new("C18", spec, "heap-grows", T::NAME, &cyc, format!("live heap bytes owned by the view: {} after {} updates, {} after {} updates (input: the driver that starts with these values)", b1, l, b2, 4 * l)));
                     return;
                 }
                 if b1 > bound {
@@ -164,6 +186,10 @@ pub fn specs(quick: bool) -> Vec<Spec> {
     if !quick {
         v.extend(chains(2, 2));
         v.extend(chains(5, 5));
+    }
+    // every wrapper over a leaf that never delivers anything (growth while the inner view is silent)
+    for e in unary_catalogue() {
+        v.extend(variants(e.kind, 3, &Spec::never()));
     }
     // binary combinators over a windowed and a recursive child
     for k in crate::spec::BINARY {
